@@ -10,7 +10,7 @@ VERIF_NOCACHE=1 forces recompilation, VERIF_CONFIGS=<name,name> restricts config
 Exit 0: property held on everything explored (known findings printed as KNOWN-FINDING);
 exit 1: at least one `VIOLATION property=<id> replay=<path>`; exit 2: the check itself is broken.
 """
-import os, sys, json, time, hashlib, subprocess, shutil, re, glob
+import os, sys, json, time, hashlib, subprocess, shutil, re, glob, fnmatch
 from concurrent.futures import ThreadPoolExecutor
 
 HERE = os.path.dirname(os.path.abspath(__file__))
@@ -106,7 +106,7 @@ def link(objs, out, cxx, flags=()):
 def driver_obj(san=False, cxx="g++"):
     flags = ["-std=c++17", "-O1", "-w"]
     if san:
-        flags += ["-fsanitize=address,undefined", "-fno-sanitize-recover=undefined"]
+        flags += ["-fsanitize=address,undefined", "-DVP_SAN"]
     o, err = compile_obj(os.path.join(HARNESS, "driver.cpp"), flags, cxx, uses_repo=False)
     if o is None:
         raise SystemExit("driver.cpp failed to compile:\n" + err)
@@ -131,12 +131,12 @@ def build_binary(prop, cfg):
     o, err = compile_obj(src, flags, cfg.cxx)
     if o is None:
         return None, err
-    objs = [driver_obj(cfg.san, "g++" if cfg.cxx == "g++" else "g++"), o] + ref_objs(prop)
+    objs = [driver_obj(cfg.san_mode == "asan"), o] + ref_objs(prop)
     key = hashlib.sha256(" ".join(objs).encode()).hexdigest()[:16]
     exe = os.path.join(BUILD, "%s-%s-%s" % (prop["id"], cfg.name, key))
     if not os.path.exists(exe) or os.environ.get("VERIF_NOCACHE"):
-        lflags = ["-fsanitize=address,undefined"] if cfg.san else []
-        err2 = link(objs, exe, "g++", lflags + list(prop.get("ldflags", [])))
+        lflags = ["-fsanitize=address,undefined"] if cfg.san_mode == "asan" else []
+        err2 = link(objs, exe, "g++", lflags + ["-no-pie"] + list(prop.get("ldflags", [])))
         if err2:
             return None, err2
     return exe, err
@@ -167,7 +167,7 @@ def known_applies(k, cfg):
     if expr in ("*", ""):
         return True
     cl = C.closure(cfg.macros)
-    names = {"GCC": cfg.cxx == "g++", "CLANG": cfg.cxx != "g++", "SAN": cfg.san,
+    names = {"GCC": cfg.cxx == "g++", "CLANG": cfg.cxx != "g++", "SAN": bool(cfg.san),
              "CXX17": cfg.std in ("c++17", "c++20"), "O0": cfg.opt == "-O0"}
 
     def rep(m):
@@ -224,6 +224,11 @@ def run_one(prop, cfg, tier, regress_path, known, outdir):
            "--scale", str(scale), "--out", out]
     if regress_path:
         cmd += ["--regress", regress_path]
+    if prop.get("ub_is_violation"):
+        cmd += ["--ub-violation", "1"]
+    for p in (out, out + ".crash"):
+        if os.path.exists(p):
+            os.remove(p)
     for k in known:
         if known_applies(k, cfg):
             cmd += ["--known", k["sig"]]
@@ -231,7 +236,7 @@ def run_one(prop, cfg, tier, regress_path, known, outdir):
     ms = prop.get("max_success", {}).get(tier, 300 if tier == "quick" else 3000)
     env["RC_PARAMS"] = "seed=%d max_success=%d max_size=100" % (SEED, ms)
     env["ASAN_OPTIONS"] = "detect_leaks=1:abort_on_error=0:exitcode=99:allocator_may_return_null=1"
-    env["UBSAN_OPTIONS"] = "print_stacktrace=0:halt_on_error=1:exitcode=98"
+    env["UBSAN_OPTIONS"] = "print_stacktrace=0:halt_on_error=0"
     try:
         r = subprocess.run(cmd, stdout=subprocess.PIPE, stderr=subprocess.PIPE, text=True, env=env,
                            timeout=prop.get("timeout", {}).get(tier, 1500 if tier == "quick" else 14400))
@@ -243,6 +248,8 @@ def run_one(prop, cfg, tier, regress_path, known, outdir):
             res["json"] = json.load(open(out))
         except Exception as e:
             res["json_error"] = str(e)
+    elif os.path.exists(out + ".crash"):
+        res["crash_case"] = open(out + ".crash").read().strip()
     return res
 
 
@@ -289,7 +296,7 @@ def main_check(pid, tier):
     known = load_known(pid)
     rpath, nreg = regress_file(pid, outdir)
     driver_obj(False)
-    if any(c.san for c in cfgs):
+    if any(c.san_mode == "asan" for c in cfgs):
         driver_obj(True)
     ref_objs(prop)
     with ThreadPoolExecutor(max_workers=JOBS) as ex:
@@ -302,6 +309,7 @@ def aggregate(pid, prop, tier, cfgs, results, known, nreg, t0, extra_cov=None):
     ev = dict(evaluations=0, lanes=0, nontrivial=0, distinct_max=0, distinct_sum=0, known_excl=0, na=0)
     classes, per_target, per_op, domains, samples = {}, {}, {}, [], []
     executed, skipped_build, known_hits = [], [], {}
+    ub_reports, digests = {}, {}
     rule = ""
     for r in results:
         cfg = r["config"]
@@ -312,6 +320,15 @@ def aggregate(pid, prop, tier, cfgs, results, known, nreg, t0, extra_cov=None):
             broken.append("%s: timed out (inconclusive)" % cfg.name)
             continue
         j = r.get("json")
+        if j is None and r.get("crash_case"):
+            # the process died inside a Case (sanitizer abort / fatal signal): that Case is the failing input
+            msg = [l for l in r.get("stderr", "").split("\n") if "ERROR" in l or "runtime error" in l or "SUMMARY" in l]
+            f = {"sig": "?|?|fatal-abort", "msg": "harness process died inside this Case: " + " / ".join(msg)[:600], "expect": [], "actual": [], "bad_lane": -1,
+                 "case": {"text": r["crash_case"], "target": "?", "op": "?", "s": [], "v": []}, "phase": "?", "confirmed": 3}
+            if not any(fnmatch.fnmatch(f["sig"] + ":" + f["msg"], k["sig"]) and known_applies(k, cfg) for k in known):
+                path = write_replay(pid, cfg, f)
+                viol.append((cfg.name, f, path))
+            continue
         if j is None:
             # a crash of the harness binary itself (signal, sanitizer abort)
             tail = r.get("stderr", "")[-1500:]
@@ -336,11 +353,22 @@ def aggregate(pid, prop, tier, cfgs, results, known, nreg, t0, extra_cov=None):
                 s = dict(s); s["config"] = cfg.name
                 samples.append(s)
         for f in j["failures"]:
+            mm = re.search(r"pc=(0x[0-9a-f]+)", f["msg"])
+            if mm and r.get("exe"):
+                try:
+                    sym = sh(["addr2line", "-f", "-C", "-i", "-e", r["exe"], mm.group(1)]).stdout.strip().replace("\n", " @ ")
+                    f["msg"] += " [" + sym[:300] + "]"
+                except Exception:
+                    pass
             if f["confirmed"] < 3:
                 broken.append("%s: failure %s did not reproduce 3/3 (flaky harness?)" % (cfg.name, f["sig"]))
                 continue
             path = write_replay(pid, cfg, f)
             viol.append((cfg.name, f, path))
+        for k, v in j.get("ub_reports", {}).items():
+            ub_reports[k] = ub_reports.get(k, 0) + v
+        for k, v in j.get("digests", {}).items():
+            digests.setdefault(k, {}).setdefault(v, []).append(cfg.name)
         for kh in j["known"]:
             e = known_hits.setdefault(kh["glob"], {"count": 0, "configs": [], "example": kh})
             e["count"] += kh["count"]; e["configs"].append(cfg.name)
@@ -356,6 +384,10 @@ def aggregate(pid, prop, tier, cfgs, results, known, nreg, t0, extra_cov=None):
     if len(skipped_build) > allowed_skips:
         broken.append("harness failed to build in %d configurations: %s" % (len(skipped_build), skipped_build[:3]))
 
+    # cross-configuration differential over the deterministic phase
+    digest_diff = {k: {d: c[:4] for d, c in v.items()} for k, v in digests.items() if len(v) > 1}
+    if prop.get("digest_binding") and digest_diff and not viol:
+        broken.append("outputs of the deterministic phase differ between configurations although every configuration agrees with the oracle: %s" % list(digest_diff.items())[:2])
     for k in known:
         hits = known_hits.get(k["sig"], {"count": 0, "configs": []})
         print("KNOWN-FINDING: property=%s %s [hits=%d in %d configurations]" % (pid, k["text"], hits["count"], len(hits["configs"])))
@@ -392,6 +424,8 @@ def aggregate(pid, prop, tier, cfgs, results, known, nreg, t0, extra_cov=None):
         "cases_excluded_as_known": ev["known_excl"], "not_applicable_cases": ev["na"],
         "violation_list": [{"config": c, "sig": f["sig"], "msg": f["msg"], "replay": os.path.relpath(p, HERE)} for c, f, p in viol][:40],
         "broken": broken,
+        "ub_reports": ub_reports,
+        "cross_config_digest": {"targets_ops_compared": len(digests), "differing": digest_diff if len(digest_diff) < 20 else len(digest_diff)},
     }
     if extra_cov:
         cov.update(extra_cov)
@@ -438,10 +472,12 @@ def main_replay(path):
         return 2
     r = subprocess.run([exe, "--mode", "replay", "--config", cfg.name, "--case", d["case"]["text"]], stdout=subprocess.PIPE, stderr=subprocess.STDOUT, text=True)
     print(r.stdout.strip())
-    if r.returncode == 1:
-        print("VIOLATION property=%s replay=%s" % (pid, path))
-        return 1
-    return 0 if r.returncode == 0 else 2
+    if r.returncode == 0:
+        return 0
+    if r.returncode == 3:
+        return 2
+    print("VIOLATION property=%s replay=%s" % (pid, path))
+    return 1
 
 
 def main():
